@@ -54,6 +54,9 @@ class LssSlave:
             mode = data[1]
             if mode not in (0, 1):
                 self._v("lss-bad-mode", f"switch state global with mode {mode}")
+            if mode == 0 and self.state == CONFIGURATION:
+                # CiA 305: leaving configuration state with a newly configured node id makes it the active one
+                self.node_id = self.pending_node_id
             self.state = CONFIGURATION if mode == 1 else WAITING
             return []
         if cs in (0x40, 0x41, 0x42):
